@@ -908,10 +908,31 @@ class Interp:
             return self.construct_record(f, args, kwargs)
         if sym:
             if isinstance(f, types.FunctionType) and self.inline_fallback(f):
-                return self.call_function(f, args, kwargs)
+                self._fallback_depth = getattr(self, "_fallback_depth", 0) + 1
+                if not hasattr(self.ctx, "inlined"):
+                    self.ctx.inlined = {}
+                self.ctx.inlined[f"{f.__module__}:{f.__qualname__}"] = f
+                try:
+                    return self.call_function(f, args, kwargs)
+                finally:
+                    self._fallback_depth -= 1
             owner = getattr(f, "__self__", None)
+            if isinstance(owner, (dict, types.MappingProxyType)) and getattr(f, "__name__", "") == "get" \
+                    and not kwargs and 1 <= len(args) <= 2 and not isinstance(owner, Sym):
+                # read-only lookup with a symbolic key in a concrete mapping: d[k] if k in d else default
+                try:
+                    return self.getitem(owner, args[0], fr)
+                except PyRaise as r:
+                    if r.cls is KeyError:
+                        return args[1] if len(args) == 2 else None
+                    raise
             if owner is not None and id(owner) in self.fresh_ids and isinstance(owner, (list, dict, set)):
                 return f(*args, **kwargs)        # a container created by this very activation
+            if owner is not None and not isinstance(owner, (type, types.ModuleType)) and not isinstance(owner, IMMUTABLE_TYPES) \
+                    and id(owner) not in self.fresh_ids and getattr(f, "__name__", "") in READONLY_METHODS \
+                    and isinstance(owner, (dict, list, set, frozenset, tuple, types.MappingProxyType)):
+                raise Undecided(f"read-only method {type(owner).__name__}.{f.__name__} of a shared container with symbolic "
+                                f"arguments has no model")
             if owner is not None and not isinstance(owner, (type, types.ModuleType)) and not isinstance(owner, IMMUTABLE_TYPES) \
                     and id(owner) not in self.fresh_ids:
                 self.ctx.effects.append(("call-on-shared", f"{type(owner).__name__}.{getattr(f, '__name__', '?')}",
@@ -927,7 +948,19 @@ class Interp:
             raise PyRaise(type(ex), str(ex))
 
     def inline_fallback(self, f):
-        return False
+        """A repository function that carries no contract is verified as part of its callers' bodies
+        (the usual treatment of un-annotated private helpers): its real source is executed in place.
+        Bounded nesting, so that recursion through un-contracted helpers ends in 'undecided'."""
+        mod = getattr(f, "__module__", "") or ""
+        if not (mod == "kio" or mod.startswith("kio.") or mod == "codegen" or mod.startswith("codegen.")):
+            return False
+        if getattr(self, "_fallback_depth", 0) >= 4:
+            return False
+        try:
+            funcdef_of(f)
+        except Exception:        # noqa: BLE001
+            return False
+        return True
 
     def construct_record(self, cls, args, kwargs):
         if args:
